@@ -59,6 +59,17 @@ def gen_geometry(rng, D, cls):
             pa = a + (b - a) * rng.uniform(0.0, 0.4)
             pb = b - (b - a) * rng.uniform(0.0, 0.4)
             lb.append(_r(a)); ub.append(_r(b)); plb.append(_r(pa)); pub.append(_r(pb)); islog.append(False)
+        elif c == "aligned":
+            # "ordinary decimal" bounds whose internal image lies exactly on the search mesh:
+            # mu = s/10, gamma = t/10 (not exactly representable), lb = mu - a*gamma with a dyadic.
+            # Candidates projected onto such a bound map back through an inexact round trip.
+            t_ = rng.randrange(1, 60)
+            s_ = rng.randrange(-80, 80)
+            den = rng.choice([10.0, 10.0, 100.0, 1.0])
+            a_ = 1 + rng.randrange(0, 9) / rng.choice([2, 4, 8])
+            b_ = 1 + rng.randrange(0, 9) / rng.choice([2, 4, 8])
+            lb.append(_r((s_ - a_ * t_) / den, 12)); ub.append(_r((s_ + b_ * t_) / den, 12))
+            plb.append(_r((s_ - t_) / den, 12)); pub.append(_r((s_ + t_) / den, 12)); islog.append(False)
         elif c == "tight":
             m = _r(rng.uniform(-10, 10), 3)
             h = _r(10 ** rng.uniform(-1, 2), 3)
@@ -165,7 +176,10 @@ def gen_target(rng, g, D, fam, where, seed):
         if all(g["islog"]):
             return dict(family="logquad", c=[abs(v) + 1e-300 for v in c], w=[_r(10 ** rng.uniform(0, 1.5), 3) for _ in range(D)])
         ev = [_r(10 ** rng.uniform(0, 2) / (s / 2) ** 2, 6) for s in scale]
-        return dict(family="quad", c=c, ev=ev, rot_seed=subseed(seed, "rot") if (D > 1 and rng.random() < 0.7 and not any(g["islog"])) else None)
+        # a constant offset changes neither minimiser nor conditioning (typical of log-likelihoods)
+        off = _choice(rng, [0.0, 0.0, 0.0, 1e3, -1e3, 1e5, -1e5, 37.5])
+        return dict(family="quad", c=c, ev=ev, offset=off,
+                    rot_seed=subseed(seed, "rot") if (D > 1 and rng.random() < 0.7 and not any(g["islog"])) else None)
     if fam == "abs":
         return dict(family="abs", c=c, w=[_r(10 ** rng.uniform(-1, 1) / s, 6) for s in scale])
     if fam == "plateau":
@@ -320,7 +334,13 @@ def gen_options(rng, D, prof, noise_mode):
     maybe("tol_fun", 0.1, lambda: _choice(rng, [1e-2, 1e-4, 1e-6]))
     maybe("tol_stall_iters", 0.15, lambda: rng.randrange(1, 6))
     if noise_mode != "none":
-        maybe("noise_final_samples", 0.6, lambda: _choice(rng, [0, 1, 1, 2, 3, 5, 10]))
+        maybe("noise_final_samples", 0.6, lambda: _choice(rng, prof.get("nfs_choices", [0, 1, 1, 2, 3, 5, 10])))
+    else:
+        # noise_size only feeds the GP noise prior of a deterministic run (valid, rarely set)
+        maybe("noise_size_det", 0.15, lambda: None)
+        if "noise_size_det" in o:
+            del o["noise_size_det"]
+            o["noise_size"] = _r(10 ** rng.uniform(-3, 0), 3)
         maybe("noise_size", 0.3, lambda: _r(10 ** rng.uniform(-2, 0.5), 3))
     return o
 
@@ -331,8 +351,8 @@ def gen_options(rng, D, prof, noise_mode):
 
 DEFAULT_PROFILE = dict(
     D=[1, 2, 2, 3, 3, 4, 5],
-    geom=["sym", "asym", "tight", "log", "mixedlog", "unbounded", "tiny", "huge"],
-    geom_w=[3, 3, 2, 2, 2, 2, 1, 1],
+    geom=["sym", "asym", "tight", "log", "mixedlog", "unbounded", "tiny", "huge", "aligned"],
+    geom_w=[3, 3, 2, 2, 2, 2, 1, 1, 2],
     x0=["inside", "on_bound", "absent", "hard_not_plausible"],
     x0_w=[5, 2, 2, 1],
     where=["plausible", "hard", "face", "outside"],
@@ -373,7 +393,8 @@ def make_scenario(seed, profile=None, index=0):
     noise_mode = "none"
     opts_noise = {}
     if nkind != "none":
-        sigma = _r(10 ** rng.uniform(-3, 0.5), 3)
+        lo_s, hi_s = prof.get("sigma_log10", (-3, 0.5))
+        sigma = _r(10 ** rng.uniform(lo_s, hi_s), 3)
         if nkind == "hetero":
             plb = g["plb"] if g["plb"] is not None else g["lb"]
             pub = g["pub"] if g["pub"] is not None else g["ub"]
